@@ -81,6 +81,15 @@ impl Expect {
     }
 }
 
+/// both ends of a long list (messages only)
+fn sl(l: &L) -> String {
+    if l.len() > 24 {
+        format!("{:?}..({} more)..{:?}", &l[..8], l.len() - 16, &l[l.len() - 8..])
+    } else {
+        format!("{:?}", l)
+    }
+}
+
 fn is_sublist_keep_front(obs: &L, exp: &L) -> bool {
     // obs must be a subsequence of exp
     let mut j = 0;
@@ -114,20 +123,24 @@ pub fn matches(e: &Expect, val: &Val, post: &MState, front_required: &[(usize, (
         if e.lenient_ghosts.contains(&i) {
             if !is_sublist_keep_front(obs, exp) {
                 return Err(format!(
-                    "ghost list #{} is {:?}, not an order-preserving sub-list of the expected {:?}",
-                    i, obs, exp
+                    "ghost list #{} is {}, not an order-preserving sub-list of the expected {}",
+                    i,
+                    sl(obs),
+                    sl(exp)
                 ));
             }
             for (li, ent) in front_required.iter().chain(e.front_required.iter()) {
                 if *li == i && obs.first() != Some(ent) {
                     return Err(format!(
-                        "ghost list #{} is {:?} but the entry just evicted into it {:?} must be at its most-recent end",
-                        i, obs, ent
+                        "ghost list #{} is {} but the entry just evicted into it {:?} must be at its most-recent end",
+                        i,
+                        sl(obs),
+                        ent
                     ));
                 }
             }
         } else if exp != obs {
-            return Err(format!("list #{} is {:?} but the model expects {:?}", i, obs, exp));
+            return Err(format!("list #{} is {} but the model expects {}", i, sl(obs), sl(exp)));
         }
     }
     Ok(())
